@@ -101,7 +101,13 @@ pub fn call_cases(tier: Tier) -> Vec<CallCase> {
                 for (req, resp) in [(zeros.clone(), noisy.clone()), (noisy.clone(), zeros.clone()), (vec![1u8, 2, 3], zeros.clone())] {
                     let req_msgs = if shape.streams_requests() { vec![req.clone(), vec![5]] } else { vec![req.clone()] };
                     let script = Script { initial_md: vec![], msgs: vec![resp.clone(), vec![6]], end: None, handler_err: false, bidi: BidiMode::ReadAll, disable_compression: false };
-                    out.push(CallCase { shape, req_msgs, req_md: vec![], script, free_cuts: false, enc: Some(enc), fixed_chunks: true });
+                    out.push(CallCase { shape, req_msgs: req_msgs.clone(), req_md: vec![], script: script.clone(), free_cuts: false, enc: Some(enc), fixed_chunks: true });
+                    // the per-response opt-out (Response::disable_compression) on unary responses
+                    if !shape.streams_responses() {
+                        let mut s2 = script.clone();
+                        s2.disable_compression = true;
+                        out.push(CallCase { shape, req_msgs: req_msgs.clone(), req_md: vec![], script: s2, free_cuts: false, enc: Some(enc), fixed_chunks: true });
+                    }
                 }
             }
         }
@@ -219,6 +225,14 @@ fn l1_body(c: &CallCase, ch: &Chooser) -> Outcome {
     if ch.has_flag(crate::env::SOURCE_POLLED_AFTER_END) {
         o.violate("source-polled-after-end", "a request or response message stream was polled again after it had returned None (a legitimate non-fused stream may panic there and the call would be lost)");
     }
+    if c.script.disable_compression && c.enc.is_some() {
+        // the handler opted out of compression for this response: its frames carry flag 0
+        let cap = capture.lock().unwrap().clone();
+        let (frames, _) = crate::oracle::wire::parse_frames(&cap.resp_body.bytes(), &[0, 1]);
+        if frames.iter().any(|f| f.flag != 0) {
+            o.violate("opt-out-ignored", "Response::disable_compression was set but the response message was sent compressed");
+        }
+    }
     o
 }
 
@@ -293,7 +307,7 @@ fn l2_body(c: &L2Case, ch: &Chooser) -> Outcome {
 
 pub fn describe(c: &CallCase) -> String {
     if c.fixed_chunks {
-        return format!("{:?} enc={:?} req_lens={:?} resp_lens={:?} (large messages, fixed chunks)", c.shape, c.enc.map(|e| e.name()), c.req_msgs.iter().map(|m| m.len()).collect::<Vec<_>>(), c.script.msgs.iter().map(|m| m.len()).collect::<Vec<_>>());
+        return format!("{:?} enc={:?} opt_out={} req_lens={:?} resp_lens={:?} (large messages, fixed chunks)", c.shape, c.enc.map(|e| e.name()), c.script.disable_compression, c.req_msgs.iter().map(|m| m.len()).collect::<Vec<_>>(), c.script.msgs.iter().map(|m| m.len()).collect::<Vec<_>>());
     }
     format!(
         "{:?} req={:?} req_md={:?} script{{md={:?} msgs={:?} end={:?} handler_err={} mode={:?}}} free={}",
